@@ -453,7 +453,7 @@ def setup_backends(cfg):
 
 def prebuild(tier):
     from .. import build
-    for c in ("asm", "p64", "p32", "glue-a64", "glue-v6m"):
+    for c in ("asm", "p64", "p32", "glue-a64", "glue-v6m", "p64-O0"):
         build.build_shim(c)
     arm_backends("arm")      # assemble / expand the ARM sources once, before the workers fork
 
@@ -635,7 +635,7 @@ SUBCHECKS.append(Sub("arm", prim_cases(), check_arm, 16000, 250000, ("arm",), ("
 def transcript_env(cfg):
     from .. import lib as libmod
     return [("asm", libmod.get("asm")), ("asm:base", libmod.get("asm", "base")), ("p64", libmod.get("p64")), ("p32", libmod.get("p32")),
-            ("glue-a64", libmod.get("glue-a64")), ("glue-v6m", libmod.get("glue-v6m"))]
+            ("glue-a64", libmod.get("glue-a64")), ("glue-v6m", libmod.get("glue-v6m")), ("p64-O0", libmod.get("p64-O0"))]
 
 
 def transcript_cases():
